@@ -23,12 +23,13 @@ func TestMain(m *testing.M) { evid.Main(m, "C10") }
 
 // Op is one step of a history (the replayable unit is the whole []Op).
 type Op struct {
-	Kind   string   `json:"kind"` // decode | decoder | tokenizer | marshal | encoder | append | scribble | churn
+	Kind   string   `json:"kind"` // decode | redecode | decoder | tokenizer | marshal | encoder | append | scribble | churn
 	Target int      `json:"target,omitempty"`
 	Docs   [][]byte `json:"docs,omitempty"`
 	Flags  uint32   `json:"flags,omitempty"`
 	Chunks []int    `json:"chunks,omitempty"`
-	Idx    int      `json:"idx,omitempty"` // scribble: which lent buffer
+	Idx    int      `json:"idx,omitempty"` // scribble: which lent buffer; redecode: which earlier Parse result
+	Reuse  bool     `json:"reuse,omitempty"` // decoder: every Decode call goes into the same variable
 	N      int      `json:"n,omitempty"`   // churn: number of calls
 	Par    bool     `json:"par,omitempty"` // churn on a second goroutine too
 }
@@ -249,14 +250,24 @@ type result struct {
 	value    any    // pointer to decoded target, or []byte for encoder output
 	snap     string // dump at the time it was produced
 	zeroCopy bool
-	input    int // index in lent (-1: none)
+	inputs   []int // indexes in lent of every input decoded into this value (empty: none)
+	target   int   // decode results: index in targets (-1 otherwise)
+}
+
+func (r *result) fromInput(j int) bool {
+	for _, i := range r.inputs {
+		if i == j {
+			return true
+		}
+	}
+	return false
 }
 
 type world struct {
 	lent    []*lentBuf
 	results []*result
 	history []Op
-	stats   struct{ decodeThenScribble, encodeThenChurn bool }
+	stats   struct{ decodeThenScribble, encodeThenChurn, redecode bool }
 }
 
 func (w *world) lend(b []byte, what string) (int, []byte) {
@@ -268,8 +279,24 @@ func (w *world) lend(b []byte, what string) (int, []byte) {
 	return len(w.lent) - 1, c
 }
 
-func (w *world) keep(what string, v any, zc bool, input int) {
-	w.results = append(w.results, &result{what: what, value: v, snap: dumpOf(v), zeroCopy: zc, input: input})
+func (w *world) keep(what string, v any, zc bool, input int) *result {
+	r := &result{what: what, value: v, snap: dumpOf(v), zeroCopy: zc, target: -1}
+	if input >= 0 {
+		r.inputs = []int{input}
+	}
+	w.results = append(w.results, r)
+	return r
+}
+
+// parseResults lists the results that are targets of an earlier Parse (candidates for redecode).
+func (w *world) parseResults() []*result {
+	var out []*result
+	for _, r := range w.results {
+		if r.target >= 0 {
+			out = append(out, r)
+		}
+	}
+	return out
 }
 
 func fail(oracle, obs, exp, cls string) *evid.Failure {
@@ -287,7 +314,10 @@ func (w *world) invariant() *evid.Failure {
 		}
 	}
 	for i, r := range w.results {
-		inputIntact := r.input < 0 || !w.lent[r.input].scribbled
+		inputIntact := true
+		for _, in := range r.inputs {
+			inputIntact = inputIntact && !w.lent[in].scribbled
+		}
 		if r.zeroCopy && !inputIntact {
 			continue // may legitimately change with its own input
 		}
@@ -298,13 +328,13 @@ func (w *world) invariant() *evid.Failure {
 			}
 			return fail("a result keeps its contents after its input is overwritten and after further library calls", fmt.Sprintf("result[%d] (%s) now %s", i, r.what, truncs(now)), truncs(r.snap), cls)
 		}
-		if r.zeroCopy && r.input >= 0 {
+		if r.zeroCopy && len(r.inputs) > 0 {
 			// shares memory with its own input and with nothing else that is tracked
 			var sp []span
 			collect(reflect.ValueOf(r.value), &sp, 0)
 			for _, s := range sp {
 				for j, l := range w.lent {
-					if j != r.input && s.overlaps(spanOf(l.buf)) {
+					if !r.fromInput(j) && s.overlaps(spanOf(l.buf)) {
 						return fail("zero-copy values share memory with their own input buffer and nothing else", fmt.Sprintf("result[%d] (%s) points into lent[%d] (%s)", i, r.what, j, l.what), "own input or private memory", "foreign-alias")
 					}
 				}
@@ -410,8 +440,27 @@ func (w *world) apply(op Op) (f *evid.Failure) {
 			idx, in := w.lend(doc, "Parse input")
 			tgt := targets[op.Target%len(targets)]()
 			if _, err := segjson.Parse(in, tgt, segjson.ParseFlags(op.Flags)); err == nil {
-				w.keep(fmt.Sprintf("Parse(flags=%d) into %T", op.Flags, tgt), tgt, zc, idx)
+				w.keep(fmt.Sprintf("Parse(flags=%d) into %T", op.Flags, tgt), tgt, zc, idx).target = op.Target % len(targets)
 			}
+		}
+	case "redecode":
+		// decode again into a variable that holds the result of an earlier Parse. What the variable
+		// held before is superseded (the standard library reuses slices, merges maps), but the earlier
+		// *inputs* were only lent: a plain decode into a variable whose RawMessage / string / []byte
+		// still point into an earlier zero-copy input must not write through them.
+		cands := w.parseResults()
+		if len(cands) == 0 {
+			break
+		}
+		r := cands[op.Idx%len(cands)]
+		for _, doc := range op.Docs {
+			idx, in := w.lend(doc, "Parse input (redecode)")
+			segjson.Parse(in, r.value, segjson.ParseFlags(op.Flags))
+			r.inputs = append(r.inputs, idx)
+			r.zeroCopy = r.zeroCopy || zc
+			r.what += fmt.Sprintf(" then Parse(flags=%d)", op.Flags)
+			r.snap = dumpOf(r.value)
+			w.stats.redecode = true
 		}
 	case "decoder":
 		var stream []byte
@@ -424,9 +473,29 @@ func (w *world) apply(op Op) (f *evid.Failure) {
 		if zc {
 			d.ZeroCopy()
 		}
+		var shared any
+		var last *result
 		for range op.Docs {
 			tgt := targets[op.Target%len(targets)]()
-			if err := d.Decode(tgt); err != nil {
+			if op.Reuse {
+				// the usual loop: one variable for every Decode call; only its final state is retained
+				if shared == nil {
+					shared = tgt
+				}
+				tgt = shared
+			}
+			err := d.Decode(tgt)
+			if op.Reuse && !zc {
+				if last == nil {
+					last = w.keep(fmt.Sprintf("Decoder.Decode (repeatedly) into %T", tgt), tgt, false, -1)
+				}
+				last.snap = dumpOf(tgt)
+				if err != nil {
+					break
+				}
+				continue
+			}
+			if err != nil {
 				break
 			}
 			if !zc {
@@ -490,7 +559,7 @@ func (w *world) apply(op Op) (f *evid.Failure) {
 			}
 			l.scribbled = true
 			for _, r := range w.results {
-				if r.input >= 0 && w.lent[r.input] == l {
+				if r.fromInput(op.Idx % len(w.lent)) {
 					w.stats.decodeThenScribble = true
 				}
 			}
@@ -573,7 +642,15 @@ func TestHistories(t *testing.T) {
 				if rapid.IntRange(0, 3).Draw(rt, "zc") == 0 {
 					fl = uint32(segjson.ZeroCopy)
 				}
-				step(Op{Kind: "decoder", Target: tg, Docs: genDocs(rt, tg), Flags: fl, Chunks: rapid.SliceOfN(rapid.SampledFrom([]int{1, 3, 7, 100, 4096, 5000}), 1, 4).Draw(rt, "chunks")})
+				step(Op{Kind: "decoder", Target: tg, Docs: genDocs(rt, tg), Flags: fl, Reuse: rapid.IntRange(0, 2).Draw(rt, "reuse") == 0, Chunks: rapid.SliceOfN(rapid.SampledFrom([]int{1, 3, 7, 100, 4096, 5000}), 1, 4).Draw(rt, "chunks")})
+			},
+			"redecode": func(rt *rapid.T) {
+				cands := w.parseResults()
+				if len(cands) == 0 {
+					rt.Skip("no earlier Parse result")
+				}
+				i := rapid.IntRange(0, len(cands)-1).Draw(rt, "which")
+				step(Op{Kind: "redecode", Idx: i, Docs: genDocs(rt, cands[i].target), Flags: rapid.SampledFrom(parseFlagSets).Draw(rt, "pflags")})
 			},
 			"tokenizer": func(rt *rapid.T) { step(Op{Kind: "tokenizer", Docs: genDocs(rt, 0)}) },
 			"marshal":   func(rt *rapid.T) { step(Op{Kind: "marshal", Docs: genDocs(rt, 1)}) },
@@ -603,7 +680,10 @@ func TestHistories(t *testing.T) {
 		if w.stats.encodeThenChurn {
 			evid.Label("history.encode-then-churn")
 		}
-		if w.stats.decodeThenScribble || w.stats.encodeThenChurn {
+		if w.stats.redecode {
+			evid.Label("history.redecode-into-earlier-result")
+		}
+		if w.stats.decodeThenScribble || w.stats.encodeThenChurn || w.stats.redecode {
 			evid.NonTrivial(evid.HashS(fmt.Sprintf("%+v", c)))
 		}
 		if evid.SampleWanted() {
